@@ -13,9 +13,11 @@ import json
 import multiprocessing as mp
 import os
 import random
+import shutil
+import re
 import tempfile
 
-from .. import core, lexref, progs
+from .. import cartio, core, lexref, progs
 from .c07 import fixture_sources, GEN_CFG
 from pico8.lua import lua, lexer
 
@@ -207,6 +209,84 @@ def cli_writep8(ctx, src):
     judge_batch(ctx, [('cli-writep8', src, 'p8tool', out)], 'cli')
 
 
+def _cart_copy(item):
+    """the code of a source through the cart writers: .p8 file, .p8.png file, `build --lua`, a required package"""
+    name, src, tmp = item
+    from pico8 import tool
+    from pico8.game import file as gfile
+    core.quiet_picotool()
+    d = tempfile.mkdtemp(prefix='c06c_', dir=tmp)
+    out = []
+    g = cartio.make_game(cartio.memory((1, 2), {}), src, None, 16)
+    for ext in ('.p8', '.p8.png'):
+        fp = os.path.join(d, 'c' + ext)
+        try:
+            gfile.to_file(g, fp)
+            out.append((ext, cartio.game_code(gfile.from_file(fp))))
+        except Exception as e:  # noqa
+            out.append((ext, 'raises %s: %s' % (type(e).__name__, str(e)[:60])))
+    with open(os.path.join(d, 'main.lua'), 'wb') as f:
+        f.write(b'local p = require("pkg")\n' + src)
+    with open(os.path.join(d, 'pkg.lua'), 'wb') as f:
+        f.write(src)
+    try:
+        rc = tool.main(['--quiet', 'build', os.path.join(d, 'b.p8'), '--lua', os.path.join(d, 'main.lua')])
+        out.append(('build', cartio.game_code(gfile.from_file(os.path.join(d, 'b.p8'))) if rc in (0, None) else 'rc %s' % rc))
+    except SystemExit as e:
+        out.append(('build', 'exit %s' % e.code))
+    except Exception as e:  # noqa
+        out.append(('build', 'raises %s: %s' % (type(e).__name__, str(e)[:60])))
+    shutil.rmtree(d, ignore_errors=True)
+    return out
+
+
+def cart_copies(ctx, sources):
+    """"every cart write with the default writer", "`build` copying code": the source must come out of a .p8 file, a .p8.png
+    file and a build (as the main program and as a required package) unchanged, up to the final newline the formats supply"""
+    items = [(n, s, ctx.tmp) for n, s in sources if s.strip() and b'\0' not in s and not re.search(rb'(^|\n)__\w+__(\r?\n|$)', s)]
+    res = core.parmap(_cart_copy, items, procs=16, min_parallel=8)
+    batch = []
+    for (name, src, _), outs in zip(items, res):
+        for how, got in outs:
+            ctx.evaluations += 1
+            if isinstance(got, str):
+                # not writable / not buildable: only sources that the plain echo handles are expected to work
+                try:
+                    from pico8.lua import lua
+                    L = lua.Lua.from_lines([src], 8)
+                    ok = L.root.end_pos >= len([t for t in L.tokens]) - 3
+                except Exception:
+                    ok = False
+                if ok and how != '.p8.png' and not (how == 'build' and b'require' in src):
+                    ctx.violation('cart-copy-fails/%s' % how, 'the code of %s could not be carried through %s: %s' % (name, how, got), {'kind': 'copy', 'src': list(src), 'how': how})
+                else:
+                    ctx.out_of_domain += 1
+                continue
+            want = src if src.endswith(b'\n') else src + b'\n'
+            if how == 'build' and re.search(rb'function\s+_(init|update|update60|draw)\b', src):
+                ctx.out_of_domain += 1          # (build strips a package's game-loop functions: C14)
+                continue
+            if how == 'build':
+                # main program at the end; the package body inside its function
+                tail = got[-len(b'local p = require("pkg")\n' + want):]
+                if tail.rstrip(b'\n') == (b'local p = require("pkg")\n' + want).rstrip(b'\n') and (want.rstrip(b'\n') + b'\n') in got[:len(got) - len(tail) + 1]:
+                    ctx.nontrivial += 1
+                    ctx.traces += 1
+                else:
+                    k = got.find(b'package._c["pkg"]=function()\n')
+                    batch.append((name + '/build-package', want, 'build', got[k + 29:k + 29 + len(want)] if k >= 0 else got))
+                continue
+            if how == '.p8.png':
+                want = want.replace(b'\r', b' ')        # (the .p8.png reader turns CR into a blank: the normalisation C04 allows)
+            if got.rstrip(b'\n') == want.rstrip(b'\n'):
+                ctx.nontrivial += 1
+                ctx.traces += 1
+            else:
+                batch.append((name + '/' + how, want, how, got))
+    if batch:
+        judge_batch(ctx, batch, 'cart-copy')
+
+
 def run(ctx):
     rnd = random.Random(ctx.seed)
     ctx.rule = ('sources: TLC-enumerated strings over string-literal piece alphabets, structured literals for all 256 byte values in every escape form, '
@@ -225,6 +305,10 @@ def run(ctx):
         more.append((name + '/crlf', s.replace(b'\r\n', b'\n').replace(b'\n', b'\r\n')))
     run_sources(ctx, srcs + gen + more, 'programs')
     cli_writep8(ctx, open(os.path.join(core.VERIF, 'fixtures', 'lua', 'every_node.lua'), 'rb').read())
+    ctrl = [('ctrl%d' % b, b'x=1 -- ' + bytes([b]) + b' glyph on an ascii line\ns="' + bytes([b]) + b'"\n') for b in list(range(16, 32)) + [127, 1, 9, 128, 255]]
+    ws = [('trailing-ws', b'local m={}  \nm.x=1\t\nreturn m  '), ('trailing-ws-nl', b'local m={}\nreturn m \t\n'), ('trailing-cr', b'local m={}\r\nreturn m\r\n'),
+          ('blank-tail', b'm=1\n\n\n'), ('indent', b'  m=1\n\tn=2\n')]
+    cart_copies(ctx, ctrl + ws + [(n, s_) for n, s_ in srcs if len(s_) < 5000] + gen[:(30 if ctx.quick else 300)])
     # canaries: a dropped byte outside a literal, a changed byte inside one
     base = b'x="a\\65b" -- c\ny=2\n'
     v = ctx.validate('TraceEcho', [{'src': list(base), 'out': list(base.replace(b'y=2', b'y=3')), 'itoks': []},
